@@ -7,6 +7,7 @@ and generating responses, including Titan upload handlers.
 from abc import ABC, abstractmethod
 from pathlib import Path
 from typing import TYPE_CHECKING
+from urllib.parse import unquote
 
 from ..content.gemtext import generate_directory_listing
 from ..protocol.constants import (
@@ -96,8 +97,9 @@ class StaticFileHandler(RequestHandler):
         Returns:
             A GeminiResponse with the file contents or an error.
         """
-        # Get the requested path (remove leading slash)
-        requested_path = request.path.lstrip("/")
+        # Get the requested path: decode percent-escapes (RFC 3986) so that files
+        # whose names need encoding in a URL can be requested, remove leading slash
+        requested_path = unquote(request.path).lstrip("/")
 
         # Construct the full file path
         file_path = (self.document_root / requested_path).resolve()
